@@ -72,6 +72,8 @@ def gen_run(rng, prop, index, tier):
                 op["borrow"] = rng.choice([x for x in alive if x != a])
             if isinstance(ch, int):
                 op["explicit"] = True
+                if rng.random() < 0.06:
+                    op["oor"] = rng.randint(0, 9)
             ops.append(op)
         elif r < 0.52:
             ops.append({"op": "remove", "a": a, "k": rng.randint(0, 9), "by": rng.choice(("index", "object", "label", "negative"))})
@@ -112,8 +114,10 @@ def gen_run(rng, prop, index, tier):
             ops.append({"op": "edit", "a": a, "k": rng.randint(0, 9)})
         elif r < 0.935 and cls == "data3d":
             ops.append({"op": "link", "a": a, "k": rng.randint(0, 9)})
-        elif r < 0.95:
+        elif r < 0.943:
             ops.append({"op": "touch_callers_list", "a": a, "how": rng.choice(("append", "append", "pop"))})
+        elif r < 0.95:
+            ops.append({"op": "append_via_getter", "a": a, "k": rng.randint(0, 9)})
         elif r < 0.97:
             ops.append({"op": "poison_encode", "a": a, "how": rng.choice(("long", "enc"))})
         elif r < 0.98:
